@@ -37,6 +37,8 @@ pub struct Profile {
     pub w_broadcast: u32,
     pub w_cwin: u32,
     pub remote_bias: u32,
+    /// clusters with more replicas per block than a channel holds batches (17..35 cores)
+    pub wide: bool,
     pub big_pad: bool,
     pub small_batches: bool,
     pub allow_known_defects: bool,
@@ -90,6 +92,7 @@ impl Profile {
             w_broadcast: 0,
             w_cwin: 3,
             remote_bias: 50,
+            wide: false,
             big_pad: false,
             small_batches: false,
             allow_known_defects: false,
@@ -159,7 +162,16 @@ pub fn gen_knobs(t: &mut Tape, faults: &[&str], layout: &Layout) -> SimKnobs {
 
 impl<'t> Gen<'t> {
     pub fn new(t: &'t mut Tape, p: Profile) -> Gen<'t> {
-        let layout = gen_layout(t, p.remote_bias);
+        let layout = if p.wide {
+            let nh = 3 + t.draw(3) as usize;
+            let mut h: Vec<u64> = (0..nh).map(|_| 4 + t.draw(4) as u64).collect();
+            while h.iter().sum::<u64>() <= 16 {
+                h[0] += 1;
+            }
+            Layout::Remote(h)
+        } else {
+            gen_layout(t, p.remote_bias)
+        };
         Gen {
             t,
             p,
